@@ -78,13 +78,13 @@
         let ghost all = key.asns.asns_spec();
         let ghost dom0 = self.router_keys@.dom();
         let ghost map0 = self.router_keys@;
-//@ closure 1
+//@ closure update 1 optional
 |m: &mut PayloadMetrics| requires old(m).router_keys.valid as int + key.asns.asn_count_spec() as int <= u32::MAX
-//@ closure 2
+//@ closure update 2 optional
 |m: &mut PayloadMetrics| requires old(m).router_keys.locally_filtered < u32::MAX
-//@ closure 3
+//@ closure update 3 optional
 |m: &mut PayloadMetrics| requires old(m).router_keys.contributed < u32::MAX
-//@ closure 4
+//@ closure update 4 optional
 |m: &mut PayloadMetrics| requires old(m).router_keys.duplicate < u32::MAX
 //@ loop 1
             invariant
@@ -136,11 +136,11 @@
         final(self).exceptions == old(self).exceptions,
 //@ entry
         broadcast use vstd::std_specs::hash::group_hash_axioms, axiom_asn_key_model, axiom_info_published;
-//@ closure 1
+//@ closure update 1 optional
 |m: &mut PayloadMetrics| requires old(m).aspas.valid < u32::MAX
-//@ closure 2
+//@ closure update 2 optional
 |m: &mut PayloadMetrics| requires old(m).aspas.contributed < u32::MAX
-//@ closure 3
+//@ closure update 3 optional
 |m: &mut PayloadMetrics| requires old(m).aspas.duplicate < u32::MAX
 //@ fn SnapshotBuilder::insert_assertions
 //@ spec
@@ -392,11 +392,11 @@
         // push permission above, nothing else is)
         forall|x: (bool, IpBlock)| addr_rejectable(cert, x) ==> #[trigger] pushed(&self.addrs, x),
         forall|b: AsBlock| as_rejectable(cert, b) ==> #[trigger] pushed(&self.asns, b),
-//@ closure 1
+//@ closure filter 1 optional
 |block: &IpBlock| -> (r: bool) ensures r == !block.is_slash_zero_spec()
-//@ closure 2
+//@ closure filter 2 optional
 |block: &IpBlock| -> (r: bool) ensures r == !block.is_slash_zero_spec()
-//@ closure 3
+//@ closure filter 3 optional
 |block: &AsBlock| -> (r: bool) ensures r == !block.is_whole_range_spec()
 //@ afterinit 1
             let ghost f1 = iter_1.remaining();
